@@ -6,6 +6,8 @@
 //!   fm  = "ref_arr" (&records -> T) | "own_arr" (records -> Dataset) | "ref_ds" (&Dataset -> T)
 //!         | "own_ds" (Dataset -> Dataset) | "inplace" (default_target + predict_inplace)
 //!         | "dirty" (as inplace, the target buffer pre-filled with garbage)
+//!         | "prefill" (as inplace, every entry of the target buffer pre-set to the valid label `pv`)
+//!         | "row1p" (k-means: single-observation predict_inplace into a membership holding `pv`)
 //!         | "row1" (the model's single-observation API, one call per id)
 //!   ly  = "c" | "f" (column-major) | "rs" (every 2nd row of a bigger buffer) | "rev" (rows stored
 //!         in reverse, negative stride) | "cs" (every 2nd column of a bigger buffer)
@@ -143,10 +145,17 @@ impl Enc for Array2<usize> {
 /// overwrite a target buffer with garbage (the "dirty" in-place form: prior content must not matter)
 trait Dirty {
     fn dirty(&mut self);
+    /// every entry holds the (valid) label value `v` before the call; non-label targets: as `dirty`
+    fn prefill(&mut self, _v: i64) {
+        self.dirty()
+    }
 }
 impl Dirty for Array1<usize> {
     fn dirty(&mut self) {
         self.fill(97)
+    }
+    fn prefill(&mut self, v: i64) {
+        self.fill(v as usize)
     }
 }
 impl Dirty for Array2<usize> {
@@ -155,6 +164,9 @@ impl Dirty for Array2<usize> {
     }
 }
 impl Dirty for Array1<bool> {
+    fn prefill(&mut self, v: i64) {
+        self.fill(v != 0)
+    }
     fn dirty(&mut self) {
         let mut t = false;
         for x in self.iter_mut() {
@@ -272,6 +284,7 @@ struct Call {
     fm: String,
     ly: String,
     ids: Vec<usize>,
+    pv: i64, // "prefill" / "row1p": the label value the caller's output buffer holds before the call (-1: none)
 }
 struct Inp {
     pool: Vec<Vec<i64>>,
@@ -288,6 +301,7 @@ fn parse_inp(inp: &Value) -> Inp {
             fm: gets(c, "fm").to_string(),
             ly: gets(c, "ly").to_string(),
             ids: ivec(&c["ids"]).into_iter().map(|x| x as usize).collect(),
+            pv: c.get("pv").and_then(|x| x.as_i64()).unwrap_or(-1),
         })
         .collect();
     Inp { pool, nf, prog }
@@ -301,7 +315,7 @@ fn call_event(k: usize, outs: Vec<Value>, w: usize, back: Option<(Value, bool)>)
     }
 }
 
-type Row1<'a, F> = Option<&'a dyn Fn(ArrayView1<F>) -> Value>;
+type Row1<'a, F> = Option<&'a dyn Fn(ArrayView1<F>, i64) -> Value>;
 
 macro_rules! own_forms {
     ($m:expr, $F:ty, $T:ty, $c:expr, $bk:expr, $n:expr, $ext:expr) => {{
@@ -325,10 +339,12 @@ macro_rules! own_forms {
                 let d: DatasetBase<Array2<$F>, $T> = $m.predict(ds);
                 (d.targets.enc($ext), d.targets.width(), Some(back_rows(d.records.view())))
             }
-            "inplace" | "dirty" => {
+            "inplace" | "dirty" | "prefill" => {
                 let mut y: $T = PredictInplace::<Array2<$F>, $T>::default_target($m, &x);
                 if $c.fm == "dirty" {
                     y.dirty();
+                } else if $c.fm == "prefill" {
+                    y.prefill($c.pv);
                 }
                 PredictInplace::<Array2<$F>, $T>::predict_inplace($m, &x, &mut y);
                 (y.enc($ext), y.width(), None)
@@ -359,10 +375,12 @@ macro_rules! view_forms {
                 let d: DatasetBase<ArrayView2<$F>, $T> = $m.predict(ds);
                 (d.targets.enc($ext), d.targets.width(), Some(back_rows(d.records.view())))
             }
-            "inplace" | "dirty" => {
+            "inplace" | "dirty" | "prefill" => {
                 let mut y: $T = PredictInplace::<ArrayView2<$F>, $T>::default_target($m, &x);
                 if $c.fm == "dirty" {
                     y.dirty();
+                } else if $c.fm == "prefill" {
+                    y.prefill($c.pv);
                 }
                 PredictInplace::<ArrayView2<$F>, $T>::predict_inplace($m, &x, &mut y);
                 (y.enc($ext), y.width(), None)
@@ -389,10 +407,10 @@ macro_rules! run_prog {
             let ext: Vec<bool> = rows.iter().map(|r| ext_cells(r)).collect();
             let r = guarded(|| -> (Vec<Value>, usize, Option<(Value, bool)>) {
                 let bk: Array2<$F> = backing::<$F>(&rows, $inp.nf, &c.ly);
-                if c.fm == "row1" {
+                if c.fm == "row1" || c.fm == "row1p" {
                     let f = row1.expect("harness: model has no single-row API");
                     let x = bk.slice(slinfo(&c.ly));
-                    return (x.outer_iter().map(|r| f(r)).collect(), 1, None);
+                    return (x.outer_iter().map(|r| f(r, c.pv)).collect(), 1, None);
                 }
                 if c.st == "own" {
                     own_forms!($m, $F, $T, c, bk, n, &ext)
@@ -607,6 +625,11 @@ fn run(case: &Value) -> Vec<Value> {
     let inp = parse_inp(inpv);
     let mut ev: Vec<Value> = vec![];
 
+    if inpv.get("fam").and_then(|x| x.as_str()) == Some("tie") && model != "gnb" && model != "mnb" {
+        run_tie(&model, inst, &inp, &mut ev);
+        return ev;
+    }
+
     macro_rules! by_ft {
         ($body:ident) => {
             if ft == "f32" {
@@ -631,7 +654,7 @@ fn run(case: &Value) -> Vec<Value> {
                             .init_method(linfa_clustering::KMeansInit::Precomputed(init))
                             .fit(&ds)
                             .expect("harness: kmeans fit");
-                        let r1 = |r: ArrayView1<$F>| -> Value {
+                        let r1 = |r: ArrayView1<$F>, _pv: i64| -> Value {
                             let l: usize = m.predict(&r.to_owned());
                             json!([l as i64])
                         };
@@ -640,7 +663,7 @@ fn run(case: &Value) -> Vec<Value> {
                         let p = linfa_clustering::KMeans::params_with(k, rng(inst), L2Dist);
                         let p = if inst % 3 == 1 { p.init_method(linfa_clustering::KMeansInit::Precomputed(init)) } else { p };
                         let m = p.fit(&ds).expect("harness: kmeans fit");
-                        let r1 = |r: ArrayView1<$F>| -> Value {
+                        let r1 = |r: ArrayView1<$F>, _pv: i64| -> Value {
                             let l: usize = m.predict(&r);
                             json!([l as i64])
                         };
@@ -770,7 +793,7 @@ fn run(case: &Value) -> Vec<Value> {
                         _ => p.nu_weight(<$F>::of(0.3)).polynomial_kernel(<$F>::of(1.0), <$F>::of(2.0)),
                     };
                     let m = p.fit(&ds).expect("harness: svc fit");
-                    let r1 = |r: ArrayView1<$F>| -> Value {
+                    let r1 = |r: ArrayView1<$F>, _pv: i64| -> Value {
                         let b: bool = m.predict(r);
                         json!([b as i64])
                     };
@@ -791,7 +814,7 @@ fn run(case: &Value) -> Vec<Value> {
                         _ => p.c_svr(<$F>::of(5.0), None).gaussian_kernel(<$F>::of(4.0)),
                     };
                     let m = p.fit(&ds).expect("harness: svr fit");
-                    let r1 = |r: ArrayView1<$F>| -> Value {
+                    let r1 = |r: ArrayView1<$F>, _pv: i64| -> Value {
                         let v: $F = m.predict(r);
                         json!([code_s(v.to64(), scale(ext_vals(r)))])
                     };
@@ -806,7 +829,7 @@ fn run(case: &Value) -> Vec<Value> {
             let p = linfa_svm::Svm::<f64, Pr>::params().nu_weight(if inst % 2 == 1 { 0.2 } else { 0.5 });
             let p = if inst % 3 == 2 { p.linear_kernel() } else { p.gaussian_kernel(3.0) };
             let m: linfa_svm::Svm<f64, bool> = p.fit(&ds).expect("harness: one-class fit");
-            let r1 = |r: ArrayView1<f64>| -> Value {
+            let r1 = |r: ArrayView1<f64>, _pv: i64| -> Value {
                 let b: bool = m.predict(r);
                 json!([b as i64])
             };
@@ -831,7 +854,7 @@ fn run(case: &Value) -> Vec<Value> {
                 let dv = m.weighted_sum(&x.row(0)) - m.rho;
                 ev.push(json!({"ev": "member", "j": 1, "id": i + 1, "out": [code_s(dv, scale(ext_cells(row)))]}));
             }
-            let r1 = |r: ArrayView1<f64>| -> Value {
+            let r1 = |r: ArrayView1<f64>, _pv: i64| -> Value {
                 let p: Pr = m.predict(r);
                 json!([code(*p as f64)])
             };
@@ -1053,6 +1076,140 @@ fn run(case: &Value) -> Vec<Value> {
     }
     let _ = Axis(0);
     ev
+}
+
+/// The tie family: instances with an exact mirror symmetry (x -> -x is exact in floating point) and pool rows
+/// exactly on the decision boundary. Which label such a row gets is not prescribed; the per-sample clause
+/// only demands the same label through every form, batch and prior content of the output buffer.
+fn run_tie(model: &str, inst: u64, inp: &Inp, ev: &mut Vec<Value>) {
+    use ndarray::array;
+    let dbg = std::env::var("VH_DEBUG").is_ok();
+    match model {
+        "kmeans" => {
+            // centroids (-2,1), (2,1), (0,10) exactly (precomputed = converged); rows (0, y) are equidistant from 0 and 1
+            let x = array![[-2.0, 0.0], [-2.0, 2.0], [2.0, 0.0], [2.0, 2.0], [-0.5, 10.0], [0.5, 10.0]];
+            let init = array![[-2.0, 1.0], [2.0, 1.0], [0.0, 10.0]];
+            let ds = DatasetBase::from(x);
+            macro_rules! km {
+                ($d:expr) => {{
+                    let m = linfa_clustering::KMeans::params_with(3, rng(inst), $d)
+                        .init_method(linfa_clustering::KMeansInit::Precomputed(init.clone()))
+                        .fit(&ds)
+                        .expect("harness: kmeans fit");
+                    if dbg {
+                        eprintln!("kmeans tie centroids {:?}", m.centroids());
+                    }
+                    let r1 = |r: ArrayView1<f64>, pv: i64| -> Value {
+                        let l: usize = if pv >= 0 {
+                            let mut l = pv as usize;
+                            PredictInplace::predict_inplace(&m, &r, &mut l);
+                            l
+                        } else {
+                            m.predict(&r)
+                        };
+                        json!([l as i64])
+                    };
+                    run_prog!(ev, inp, &m, f64, Array1<usize>, Some(&r1), views);
+                }};
+            }
+            match inst % 3 {
+                2 => km!(L2Dist),
+                0 => km!(L1Dist),
+                _ => km!(linfa_nn::distance::LInfDist),
+            }
+        }
+        "gmm" => {
+            // two mirror-image blobs 60 apart: the cross responsibilities underflow to exactly 0, so the two
+            // components are exact mirror images and the rows (0, y) have two equal weighted log-probabilities
+            let a = [[-30.0, 0.0], [-30.0, 2.0], [-29.0, 1.0], [-31.0, 1.0], [-30.0, 1.0], [-29.5, 0.5], [-30.5, 1.5]];
+            let mut v = vec![];
+            for r in a.iter() {
+                v.push(*r);
+                v.push([-r[0], r[1]]);
+            }
+            let x = Array2::from_shape_fn((v.len(), 2), |(i, j)| v[i][j]);
+            let ds = DatasetBase::from(x);
+            let m = linfa_clustering::GaussianMixtureModel::params_with_rng(2, rng(7 + inst))
+                .n_runs(1)
+                .tolerance(1e-6)
+                .fit(&ds)
+                .expect("harness: gmm fit");
+            if dbg {
+                eprintln!("gmm tie means {:?} proba(0,1) {:?}", m.means(), m.predict_proba(&array![[0.0, 1.0], [0.0, 3.0]]));
+            }
+            run_prog!(ev, inp, &m, f64, Array1<usize>, None, views);
+        }
+        "logit" => {
+            // no intercept, second feature identically 0 in training: w = (w1, 0) exactly, rows (0, y) score 0 -> p = 0.5
+            let x = array![[-2.0, 0.0], [-1.0, 0.0], [0.5, 0.0], [-0.5, 0.0], [1.0, 0.0], [2.0, 0.0]];
+            let y = array![3usize, 3, 3, 7, 7, 7];
+            let ds = DatasetBase::new(x, y);
+            let m = linfa_logistic::LogisticRegression::default().alpha(0.5).with_intercept(false).max_iterations(200).fit(&ds).expect("harness: logit fit");
+            if dbg {
+                eprintln!("logit tie params {:?} proba {:?}", m.params(), m.predict_probabilities(&array![[0.0, 1.0]]));
+            }
+            let m = if inst % 3 == 0 { m.set_threshold(0.5) } else { m };
+            run_prog!(ev, inp, &m, f64, Array1<usize>, None, views);
+        }
+        "mlogit" => {
+            // no intercept: the row (0, 0) scores exactly 0 for every class
+            let (x, y) = class_data(inst, 3);
+            let ds = DatasetBase::new(x, y.mapv(|l| 10 + l));
+            let m = linfa_logistic::MultiLogisticRegression::default().alpha(0.5).with_intercept(false).max_iterations(200).fit(&ds).expect("harness: mlogit fit");
+            run_prog!(ev, inp, &m, f64, Array1<usize>, None, views);
+        }
+        "svc" => {
+            // origin-symmetric classes on the first axis, second feature identically 0: hyperplane x1 = 0
+            let x = array![[1.0, 0.0], [2.0, 0.0], [-1.0, 0.0], [-2.0, 0.0]];
+            let y = array![true, true, false, false];
+            let ds = DatasetBase::new(x, y);
+            let p = linfa_svm::Svm::<f64, bool>::params();
+            let p = match inst % 3 {
+                2 => p.pos_neg_weights(1.0, 1.0).linear_kernel(),
+                0 => p.nu_weight(0.5).linear_kernel(),
+                _ => p.pos_neg_weights(1.0, 1.0).gaussian_kernel(4.0),
+            };
+            let m = p.fit(&ds).expect("harness: svc fit");
+            if dbg {
+                eprintln!("svc tie inst {} rho {:e} dv(0,1) {:e} alpha {:?}", inst, m.rho, m.weighted_sum(&array![0.0, 1.0]) - m.rho, m.alpha);
+            }
+            let r1 = |r: ArrayView1<f64>, _pv: i64| -> Value {
+                let b: bool = m.predict(r);
+                json!([b as i64])
+            };
+            run_prog!(ev, inp, &m, f64, Array1<bool>, Some(&r1), views);
+        }
+        "svo" => {
+            // one-class, linear kernel, all training rows equal to (1, 0): w = (1, 0) * sum(alpha), rho = w . (1, 0)
+            let x = array![[1.0, 0.0], [1.0, 0.0], [1.0, 0.0], [1.0, 0.0]];
+            let ds = DatasetBase::new(x.clone(), Array1::<()>::from_elem(x.nrows(), ()));
+            let nu = match inst % 3 {
+                2 => 0.5,
+                0 => 0.25,
+                _ => 0.75,
+            };
+            let m: linfa_svm::Svm<f64, bool> = linfa_svm::Svm::<f64, Pr>::params().nu_weight(nu).linear_kernel().fit(&ds).expect("harness: one-class fit");
+            if dbg {
+                eprintln!("svo tie inst {} rho {:e} dv(1,3) {:e}", inst, m.rho, m.weighted_sum(&array![1.0, 3.0]) - m.rho);
+            }
+            let r1 = |r: ArrayView1<f64>, _pv: i64| -> Value {
+                let b: bool = m.predict(r);
+                json!([b as i64])
+            };
+            run_prog!(ev, inp, &m, f64, Array1<bool>, Some(&r1), views);
+        }
+        "tree" => {
+            // feature 0 takes the values -1 / 1 (labels 0 / 1) and 1 / 3 (labels 1 / 2): thresholds exactly 0 and 2
+            let x = array![[-1.0, 5.0], [-1.0, 6.0], [1.0, 5.0], [1.0, 6.0], [3.0, 5.0], [3.0, 6.0]];
+            let y = array![0usize, 0, 1, 1, 2, 2];
+            let ds = DatasetBase::new(x, y);
+            let p = linfa_trees::DecisionTree::<f64, usize>::params();
+            let p = if inst % 3 == 0 { p.split_quality(linfa_trees::SplitQuality::Entropy) } else { p };
+            let m = p.fit(&ds).expect("harness: tree fit");
+            run_prog!(ev, inp, &m, f64, Array1<usize>, None, views);
+        }
+        other => panic!("harness: no tie instance for {}", other),
+    }
 }
 
 fn main() {
